@@ -172,3 +172,133 @@ def run_batches_bisect(fn: Callable[[Any], Any], batches: list, on_result: Calla
                 retry.append((tag, items[half:]))
         pending = retry
         kill_s = max(min_kill_s, kill_s / 2)
+
+
+# ---------------------------------------------------------------------------------------------
+# watchdog map: the worker reports which item of its batch it is working on; the parent kills a worker
+# that makes no progress for stall_s seconds and learns exactly which item stalled.
+def _worker_wd(fn, conn) -> None:  # pragma: no cover - child
+    signal.signal(signal.SIGINT, signal.SIG_IGN)
+    while True:
+        try:
+            msg = conn.recv()
+        except EOFError:
+            return
+        if msg is None:
+            return
+        idx, task = msg
+
+        def progress(i: int, idx=idx) -> None:
+            conn.send((idx, ("progress", i)))
+
+        try:
+            res = ("ok", fn(task, progress))
+        except BaseException as e:  # noqa: BLE001
+            res = ("error", f"{type(e).__name__}: {e}\n{traceback.format_exc()[-3000:]}")
+        conn.send((idx, res))
+
+
+def kmap_watchdog(fn: Callable[[Any, Callable[[int], None]], Any], tasks: Iterable[Any], stall_s: float,
+                  procs: int | None = None) -> Iterator[tuple[Any, str, Any]]:
+    """yields (task, "ok", result) or (task, "stall"/"crash", index of the item in progress)."""
+    procs = procs or NPROC
+    it = iter(enumerate(tasks))
+
+    class Slot:
+        def __init__(self):
+            self.start()
+
+        def start(self):
+            self.parent, child = _ctx.Pipe()
+            self.proc = _ctx.Process(target=_worker_wd, args=(fn, child), daemon=True)
+            self.proc.start()
+            child.close()
+            self.busy = None
+            self.at = 0
+            self.last = 0.0
+
+        def kill(self):
+            try:
+                os.kill(self.proc.pid, signal.SIGKILL)
+            except ProcessLookupError:
+                pass
+            self.proc.join()
+            try:
+                self.parent.close()
+            except Exception:
+                pass
+
+    slots = [Slot() for _ in range(procs)]
+    pending = 0
+    exhausted = False
+    try:
+        while True:
+            for s in slots:
+                if s.busy is None and not exhausted:
+                    try:
+                        idx, task = next(it)
+                    except StopIteration:
+                        exhausted = True
+                        break
+                    s.busy = (idx, task)
+                    s.at = 0
+                    s.last = time.monotonic()
+                    s.parent.send((idx, task))
+                    pending += 1
+            if pending == 0 and exhausted:
+                break
+            conns = [s.parent for s in slots if s.busy is not None]
+            ready = mp.connection.wait(conns, timeout=0.05)
+            now = time.monotonic()
+            for s in slots:
+                if s.busy is None:
+                    continue
+                idx, task = s.busy
+                done = False
+                while s.parent in ready or s.parent.poll():
+                    try:
+                        ridx, res = s.parent.recv()
+                    except (EOFError, ConnectionResetError):
+                        at = s.at
+                        s.kill()
+                        s.start()
+                        pending -= 1
+                        yield task, "crash", at
+                        done = True
+                        break
+                    if res[0] == "progress":
+                        s.at = res[1]
+                        s.last = now
+                        ready = [c for c in ready if c is not s.parent]
+                        continue
+                    s.busy = None
+                    pending -= 1
+                    if res[0] == "error":
+                        raise HarnessError(f"worker raised on task: {res[1]}")
+                    yield task, "ok", res[1]
+                    done = True
+                    break
+                if done or s.busy is None:
+                    continue
+                if now - s.last > stall_s:
+                    at = s.at
+                    s.kill()
+                    s.start()
+                    pending -= 1
+                    yield task, "stall", at
+                elif not s.proc.is_alive():
+                    at = s.at
+                    s.kill()
+                    s.start()
+                    pending -= 1
+                    yield task, "crash", at
+    finally:
+        for s in slots:
+            try:
+                s.parent.send(None)
+            except Exception:
+                pass
+        for s in slots:
+            s.proc.join(timeout=0.5)
+            if s.proc.is_alive():
+                s.kill()
